@@ -4,7 +4,7 @@ from checks_common import three
 CHECK = {
     # per-episode cost (idle machine, approx.): plain 0.08 s, tsan 0.5 s, asan 0.9 s; base budget 70+50 quick,
     # 2500+1800 thorough episodes (grow + cooling)
-    "runs": three("c04_vector", [], scales=(0.4, 0.3, 1.5)),
+    "runs": [dict(r, scale_quick=round(r["scale"] * 3, 3)) for r in three("c04_vector", [], scales=(0.4, 0.3, 1.5))],
     "design_ref": "DESIGN.md §5 C04",
     "technique": "stress + schedule perturbation (element constructor window, vec:* hook points); shadow maps "
                  "index->address / address->element state; operator new/delete accounting; virtual "
